@@ -106,6 +106,19 @@ func histBlock(r *Rng, n int, kind string) []byte {
 			j := r.Intn(i + 1)
 			b[i], b[j] = b[j], b[i]
 		}
+	case "rare-quarter": // non-stationary: one quarter of every 16 KiB cycles through ~250 rare symbols, the rest uses a few dominant ones
+		// (the coders that split a chunk into four fragments give that fragment the longest codes: it expands)
+		k := r.Range(200, 250)
+		m := r.Range(2, 5)
+		perm := permutation(r, 256)
+		q := r.Intn(4)
+		for i := range b {
+			if (i%16384)/4096 == q {
+				b[i] = byte(perm[i%k])
+			} else {
+				b[i] = byte(perm[k+r.Intn(m)%(256-k)])
+			}
+		}
 	case "singles+few": // many symbols occurring exactly once + 2..8 dominant ones: the scaled table overshoots by more than the number of symbols above 1
 		k := r.Range(100, 254)
 		if k > n-2 {
@@ -240,6 +253,16 @@ func runC12(c *Ctx, _ []string) {
 		for _, n := range ls {
 			k := kinds[r.Intn(len(kinds))]
 			try(name, k, n, r.U64())
+		}
+		// a fragment of a chunk that expands while the chunk as a whole compresses (per-fragment output regions)
+		for sd := uint64(0); sd < 4; sd++ {
+			try(name, "rare-quarter", []int{16384, 32768, 50000, 16384 * 5}[sd], 200+sd)
+		}
+		// last chunk of 1..5 bytes behind whole chunks (ANS order 1: 4 MiB chunks, fixed defect at +2 / +3)
+		if name == "ANS1" || name == "ANS0" {
+			for _, extra := range []int{1, 2, 3, 4, 5} {
+				try(name, "text", (4<<20)+extra, 300)
+			}
 		}
 		// F10: Huffman chunk of exactly 2048 bytes with over-long codes
 		try(name, "fibonacci", 2048, 1)
@@ -402,7 +425,7 @@ func runC13(c *Ctx, _ []string) {
 	r := NewRng(c.Seed ^ 0x1313)
 	c.Stats["samples"] = []any{}
 	nontrivial := 0
-	shapesFor := map[string][]string{"TEXT": {"text", "accent", "utf8", "b64", "crlf", "crlfcut", "crlflone", "crlfcut", "crlflone"}, "UTF": {"utf8", "text"}, "DNA": {"dna"}, "PACK": {"b64", "dna", "skewed", "runs"},
+	shapesFor := map[string][]string{"TEXT": {"text", "accent", "utf8", "b64", "crlf", "crlfcut", "crlflone", "crlfcut", "crlflone"}, "UTF": {"utf8", "text", "utf8bad", "utf8bad"}, "DNA": {"dna"}, "PACK": {"b64", "dna", "skewed", "runs"},
 		"EXE": {"exe"}, "MM": {"mm"}, "ROLZX": {"dna", "text", "random", "exe", "mm"}, "ROLZ": {"dna", "text", "random", "exe", "mm"},
 		"ZRLT": {"runs", "zeros"}, "RLT": {"runs", "zeros", "text"}, "BWT": {"text", "dna", "runs", "random"}, "BWTS": {"text", "runs"}}
 	hints := []string{"", "", "", "", "", "", "", "", "", "TEXT", "DNA", "EXE", "MULTIMEDIA", "BIN", "UTF8", "BASE64", "NUMERIC", "SMALL_ALPHABET"}
@@ -464,6 +487,12 @@ func runC13(c *Ctx, _ []string) {
 				n = r.Range(1, 600)
 			}
 			try(name, fastEntropy[r.Intn(len(fastEntropy))], sh, n, hints[r.Intn(len(hints))], r.U64())
+		}
+	}
+	// almost valid UTF-8: a long sequence with an ASCII character in place of a continuation byte must be declined or restored exactly
+	for _, n := range []int{2000, 12000, 40000} {
+		for sd := uint64(0); sd < 6; sd++ {
+			try("UTF", "NONE", "utf8bad", n, "", 500+sd)
 		}
 	}
 	// boundaries of the run / literal length encodings: a literal run (or a run of one byte) of
